@@ -114,10 +114,12 @@ pub fn elem_from(spec: &ElemSpec, local: &str) -> A {
     if spec.q > 0 {
         e = e.decl("q", uri(spec.q));
     }
+    // the attribute shares its local name with the element that carries it (and, in chains, with other
+    // elements): name tables keyed by local name only, or shared between elements and attributes, show up
     match spec.attr {
-        1 => e = e.attr("", "k", "v"),
-        2 => e = e.attr(X, "k", "v"),
-        3 => e = e.attr(Y, "k", "v"),
+        1 => e = e.attr("", local, "v"),
+        2 => e = e.attr(X, local, "v"),
+        3 => e = e.attr(Y, local, "v"),
         4 => e = e.attr(XML_NS, "space", "default"),
         _ => {}
     }
